@@ -36,6 +36,55 @@ type simErrVal struct{ id int }
 
 func (e simErrVal) Error() string { return fmt.Sprintf("sim value error %d", e.id) }
 
+// nErrKinds error values a simulated handler can return: three of the simulator's own
+// (pointer sentinel, comparable struct value, io.EOF) and thirteen that real handlers
+// return all the time - the library's own error values, obtained by calling the library
+// on broken input and passing the error on.
+const nErrKinds = 16
+
+var libErrs []error
+
+func allSimErrors() []error {
+	if libErrs == nil {
+		var l []error
+		add := func(err error) {
+			if err == nil {
+				err = simErrVal{99}
+			}
+			l = append(l, err)
+		}
+		_, err := rjson.SkipValue([]byte(`[1,`), nil)
+		add(err)
+		_, err = rjson.SkipValue([]byte(`[1 2]`), nil)
+		add(err)
+		_, err = rjson.SkipValue([]byte(`{"a" 1}`), nil)
+		add(err)
+		_, err = rjson.SkipValue([]byte(``), nil)
+		add(err)
+		_, err = rjson.SkipValueFast([]byte(`{"a":`), nil)
+		add(err)
+		_, err = rjson.ReadNull([]byte(`x`))
+		add(err)
+		_, _, err = rjson.ReadBool([]byte(`x`))
+		add(err)
+		_, _, err = rjson.ReadUint64([]byte(`x`))
+		add(err)
+		_, _, err = rjson.ReadInt64([]byte(`-`))
+		add(err)
+		_, _, err = rjson.ReadFloat64([]byte(``))
+		add(err)
+		_, _, err = rjson.ReadObject([]byte(`null`))
+		add(err)
+		_, _, err = rjson.ReadArray([]byte(`null`))
+		add(err)
+		_, err = rjson.HandleArrayValues([]byte(`["x"]`), rjson.ArrayValueHandlerFunc(func([]byte) (int, error) { return -1, nil }), nil)
+		add(err)
+		libErrs = l
+	}
+	out := []error{&simErrPtr{1}, simErrVal{2}, io.EOF}
+	return append(out, libErrs...)
+}
+
 // CB is one recorded callback (or the result of a re-entrant call made from one).
 type CB struct {
 	Level  int    // nesting of traversals started from inside callbacks
@@ -256,9 +305,9 @@ func (e *hEnv) handle(doc, key []byte, hasKey bool, data []byte, count *int) (in
 		}
 	case dError:
 		end, _, _ := refSkip(data)
-		idx := arg % 3
+		idx := arg % nErrKinds
 		if e.errs == nil {
-			e.errs = []error{&simErrPtr{1}, simErrVal{2}, io.EOF}
+			e.errs = allSimErrors()
 		}
 		err = e.errs[idx]
 		rec.Err = idx
@@ -266,7 +315,7 @@ func (e *hEnv) handle(doc, key []byte, hasKey bool, data []byte, count *int) (in
 		e.errLvl = e.level
 		e.after = 0
 		// accompanying offset: 0, exact, or from the hostile catalogue
-		switch o := arg / 3; {
+		switch o := arg / nErrKinds; {
 		case o == 0:
 			ret = 0
 		case o == 1:
